@@ -27,6 +27,12 @@ F2  serialize_to_json_utf8():  `s = H(obj)` as first statement, H a module-level
     (parameter renamed to `obj`; H has no other locals, so no capture) and continuing after the call site is the same
     computation, with the same exceptions propagating from the same points.  The result is then matched exactly as the
     inline form.  (translate/normalize.py does not inline H because its returns sit inside try.)
+F4  the sort key of the two `events.sort(key=K)` statements (IncidentReporter.incident_declared, Subscription.subscribe) is
+    READ into a value of type numkey that lib/LogBuf.v interprets (sort_key_form): `lambda a: a['num']` -> KeyRaw (the model's
+    sort stage then FAILS on a non-integer number: the defect fixed in 7a22019 comes back as a model that predicts the lost
+    incident and as broken proofs); `lambda a: a['num'] if isinstance(a['num'], int) else d` -> KeyIntElse d; the same
+    conditional with the test negated and the branches swapped is the same function (`not` of the bool that isinstance
+    returns).  Any other key is rejected.
 F3  Subscription.send():  `if len(self.queue) < MAX: append else: pass`  ==  the same `if` without an else branch
     (an absent else branch and `else: pass` both execute nothing when the test is false).
 Not accepted (stay fail-closed): IncidentReporter writing to both files with `for f in (self.f1, self.f2): ...`
@@ -83,6 +89,43 @@ def level_consts():
         if k not in env:
             bail("levels.py: %s missing" % k)
     return env
+
+
+def sort_key_form(stmt, what):
+    """`events.sort(key=K)` -> the Coq value of type numkey that lib/LogBuf.v interprets.
+    KeyRaw         K = lambda a: a['num']                                   (the form before 7a22019: the keys are the objects
+                                                                             themselves; one non-integer num= makes the sort raise)
+    KeyIntElse d   K = lambda a: a['num'] if isinstance(a['num'], int) else d      (d an integer literal)
+                   K = lambda a: d if not isinstance(a['num'], int) else a['num']  (the same conditional with the test negated:
+                                                                             `not` of the bool isinstance returns; same branches)
+    Anything else (another default, another type test, a named function, sorted(), no key) is rejected."""
+    if not (isinstance(stmt, ast.Expr) and isinstance(stmt.value, ast.Call) and U(stmt.value.func) == "events.sort"
+            and not stmt.value.args and len(stmt.value.keywords) == 1 and stmt.value.keywords[0].arg == "key"):
+        bail("%s: the buffered events are no longer sorted by `events.sort(key=...)`: %s" % (what, U(stmt)))
+    k = stmt.value.keywords[0].value
+    if not (isinstance(k, ast.Lambda) and len(k.args.args) == 1 and not k.args.defaults and not k.args.vararg
+            and not k.args.kwarg and not k.args.kwonlyargs and not k.args.posonlyargs):
+        bail("%s: sort key is not a one-argument lambda: %s" % (what, U(k)))
+    v = k.args.args[0].arg
+    num = "%s['num']" % v
+    test = "isinstance(%s, int)" % num
+    b = k.body
+    if U(b) == num:
+        return "KeyRaw"
+
+    def intlit(n):
+        if isinstance(n, ast.UnaryOp) and isinstance(n.op, ast.USub):
+            r = intlit(n.operand)
+            return None if r is None else -r
+        if isinstance(n, ast.Constant) and isinstance(n.value, int) and not isinstance(n.value, bool):
+            return n.value
+        return None
+    if isinstance(b, ast.IfExp):
+        if U(b.test) == test and U(b.body) == num and intlit(b.orelse) is not None:
+            return "KeyIntElse (%d)" % intlit(b.orelse)
+        if U(b.test) == "not " + test and U(b.orelse) == num and intlit(b.body) is not None:
+            return "KeyIntElse (%d)" % intlit(b.body)
+    bail("%s: unrecognised sort key %s" % (what, U(k)))
 
 
 def classify_add_event(fn):
@@ -379,11 +422,13 @@ def generate():
             order.append("IsSubscribe")
         elif src == "events = list(self.logger.get_buffered_events())":
             j = idf.body.index(s)
-            want = ["events = list(self.logger.get_buffered_events())", "events.sort(key=lambda a: a['num'])",
+            want = ["events = list(self.logger.get_buffered_events())", None,
                     "for e in events:\n    flogfile.serialize_wrapper(self.f1, e, from_=self.tubid_s, rx_time=now)\n"
                     "    flogfile.serialize_wrapper(self.f2, e, from_=self.tubid_s, rx_time=now)"]
-            if [U(x) for x in idf.body[j:j + 3]] != want:
+            got = [U(x) for x in idf.body[j:j + 3]]
+            if len(got) != 3 or got[0] != want[0] or got[2] != want[2]:
                 bail("incident_declared: snapshot of the buffered events changed")
+            incident_key = sort_key_form(idf.body[j + 1], "incident_declared")
             order.append("IsSnapshot")
         elif isinstance(s, ast.If) and U(s.test) == "self.TRAILING_DELAY is None":
             want_t = ["self.active = False", "eventually(self.finished_recording)"]
@@ -394,6 +439,9 @@ def generate():
     if sorted(order) != sorted(["IsHeader", "IsSubscribe", "IsSnapshot", "IsFinish"]):
         bail("incident_declared: stages found: %r" % order)
     out.append("Definition incident_stages : list inc_stage := [%s]." % "; ".join(order))
+    # the key the snapshot (and, below, the catch-up batch) is sorted by: log.msg(num=..) buffers ANY object as the number
+    out.append("Inductive numkey := KeyRaw | KeyIntElse (d : Z).")
+    out.append("Definition incident_sort_key : numkey := %s.   (* incident_declared: events.sort(key=...) *)" % incident_key)
     srcid = U(idf)
     for frag in ("self.f1.write(flogfile.MAGIC)", "self.f2.write(flogfile.MAGIC)",
                  "self.f2 = bz2.BZ2File(self.abs_filename_bz2_tmp, 'wb')", "self.f1 = open(self.abs_filename, 'wb')"):
@@ -552,10 +600,12 @@ def generate():
     # catch-up: the buffered events, sorted by number, are handed to the observer directly (callRemoteOnly); the
     # bounded queue and the in-flight counter are not touched by subscribe()
     cu = [x for x in sub.body if isinstance(x, ast.If) and U(x.test) == "catch_up"]
-    want_cu = ["events = list(self.logger.get_buffered_events())", "events.sort(key=lambda a: a['num'])",
+    want_cu = ["events = list(self.logger.get_buffered_events())", None,
                "for e in events:\n    self.observer.callRemoteOnly('msg', e)"]
-    if len(cu) != 1 or cu[0].orelse or [U(x) for x in cu[0].body] != want_cu:
+    if len(cu) != 1 or cu[0].orelse or len(cu[0].body) != 3 or U(cu[0].body[0]) != want_cu[0] or U(cu[0].body[2]) != want_cu[2]:
         bail("Subscription.subscribe: the catch-up batch is no longer sent directly with callRemoteOnly")
+    out.append("Definition catchup_sort_key : numkey := %s.   (* Subscription.subscribe: events.sort(key=...) *)"
+               % sort_key_form(cu[0].body[1], "Subscription.subscribe"))
     for n in ast.walk(sub):
         if isinstance(n, ast.Attribute) and isinstance(n.value, ast.Name) and n.value.id == "self" \
                 and n.attr in ("queue", "in_flight", "marked_for_sending", "start_sending"):
